@@ -76,4 +76,13 @@ def pack : List Bool → List Nat
     valBE [b7, b6, b5, b4, b3, b2, b1, b0] :: pack rest
   | _ => []
 
+
+/-- the transmitter side of the address/parity overlay (Annex 10 §3.1.2.3.3.2): the last 24
+    bits of DF 0/4/5/16/20/21 are the parity of everything before, XORed with the address.
+    With address 0 this is the plain parity field (PI) of DF 11/17/18. -/
+def apField (data : List Nat) (addr : Nat) : List Nat :=
+  pack (bitsN 24 ((parity (bits data)).toNat ^^^ addr))
+
+def encodeAP (data : List Nat) (addr : Nat) : List Nat := data ++ apField data addr
+
 end Rs1090.Spec.Crc
